@@ -39,7 +39,7 @@ def run(ctx):
     if not behs:
         raise vlib.MachineryError("MC_Markup printed no line")
     vlib.write_ndjson(ctx.path("beh.ndjson"), behs)
-    nonvac = mc.nonvacuity(ctx, ["Bug_NoTrimAdjust", "Bug_BytePositions"], alpha="s", maxlen=2)
+    nonvac = mc.nonvacuity(ctx, ["Bug_NoTrimAdjust", "Bug_BytePositions"], alpha="s", maxlen=2, invariants="RangesInsideText")
 
     # ------------------------------------------------------ S->C and C->S in one trace
     n = 500000 if thorough else 25000
